@@ -27,7 +27,7 @@ TITLE = 'METAL = inlining'
 LEVEL = 'exploration'
 SHARDS = {'quick': 16, 'thorough': 16}
 FLOOR = {'quick': 800, 'thorough': 10000}
-REQUIRED_MONITORS = {'pairs-compared': 2000, 'uses-with-fillers': 800, 'extend-chains': 150, 'switch-boundary-compared': 100, 'history-uses-compared': 100, 'translation-block-slots-compared': 100, 'whole-template-uses-compared': 300}
+REQUIRED_MONITORS = {'pairs-compared': 2000, 'uses-with-fillers': 800, 'extend-chains': 150, 'switch-boundary-compared': 100, 'history-uses-compared': 100, 'translation-block-slots-compared': 100, 'whole-template-uses-compared': 300, 'load-directories-compared': 100}
 RULE = ('a case = (library of 1..3 macros with 0..3 define-slot regions each - repeated slot names allowed, nested uses of '
         'earlier macros inside bodies, extend-macro chains up to length 3 - , caller with 1..3 uses filling random subsets of '
         'slots plus unknown names, uses inside tal:repeat / tal:define, two consecutive uses in one scope, local and global '
@@ -386,6 +386,7 @@ def run(ctx):
     layer_redefinition_histories(ctx, 10 if ctx.quick else 120)
     layer_slots_in_translation_blocks(ctx, 12 if ctx.quick else 150)
     layer_whole_template(ctx, 30 if ctx.quick else 500)
+    layer_load_across_directories(ctx, 10 if ctx.quick else 150)
 
 
 
@@ -454,6 +455,65 @@ def layer_whole_template(ctx, n):
                 ctx.violation(key, 'a whole template used as a macro (%s), pre-bound %r\n  TEMPLATE %r\n  CALLER %r\n  INLINED %r\n  '
                               'with METAL %r\n  inlined    %r' % (placement, env, wsrc, callsrc, inl, got, want),
                               {'kind': 'whole', 'w': wsrc, 'caller': callsrc, 'inlined': inl, 'env': env, 'placement': placement})
+    finally:
+        shutil.rmtree(tmp, ignore_errors=True)
+
+
+
+def layer_load_across_directories(ctx, n):
+    """Macros reached through load: from file templates in several directories: a relative name is looked up next to
+    the template that writes it, whatever was loaded before (by this template, by the loaded ones, in this or an
+    earlier rendering); same-named files exist in every directory and say where they live."""
+    from chameleon import PageTemplateFile
+    rng = ctx.rng
+    tmp = tempfile.mkdtemp(prefix='c09d_')
+    try:
+        for case in range(n):
+            root = os.path.join(tmp, 'k%d' % case)
+            dirs = ['', 'sub', os.path.join('sub', 'deep'), 'other']
+            for d in dirs:
+                os.makedirs(os.path.join(root, d), exist_ok=True)
+                for name in ('layout.pt', 'widgets.pt'):
+                    with open(os.path.join(root, d, name), 'w') as fh:
+                        # a library may itself use a macro of its neighbour (looked up next to itself)
+                        nested = ''
+                        if name == 'widgets.pt' and rng.random() < .5:
+                            nested = '<u metal:use-macro="load: layout.pt"><f metal:fill-slot="s">nested-from-%s</f></u>' % (d or 'top')
+                        fh.write('<m metal:define-macro="m">[%s in %s:<i metal:define-slot="s">default</i>%s]</m>' % (name, d or 'top', nested))
+            steps = []
+            for _ in range(rng.randint(2, 4)):
+                d = rng.choice(dirs)
+                name = rng.choice(['layout.pt', 'widgets.pt'])
+                steps.append((d, name, rng.random() < .5))
+            body = ''
+            want = ''
+            for j, (d, name, fill) in enumerate(steps):
+                spec = (d + '/' if d else '') + name
+                body += '<u metal:use-macro="load: %s">%s</u>' % (spec.replace(os.sep, '/'), '<f metal:fill-slot="s">F%d</f>' % j if fill else '')
+
+                def expect(d, name, filler):
+                    nested = ''
+                    text = open(os.path.join(root, d, name)).read()
+                    if 'nested-from' in text:
+                        nested = expect(d, 'layout.pt', '<f>nested-from-%s</f>' % (d or 'top'))
+                    return '<m>[%s in %s:%s%s]</m>' % (name, d or 'top', filler or '<i>default</i>', nested)
+                want += expect(d, name, '<f>F%d</f>' % j if fill else None)
+            with open(os.path.join(root, 'caller.pt'), 'w') as fh:
+                fh.write('<x>' + body + '</x>')
+            want = '<x>' + want + '</x>'
+            outs = []
+            try:
+                t = PageTemplateFile(os.path.join(root, 'caller.pt'))
+                for again in range(2):
+                    outs.append(t())
+            except Exception as e:
+                outs.append('RAISED %s %s' % (type(e).__name__, str(e).split('\n')[0][:160]))
+            ctx.mon('load-directories-compared')
+            ctx.case(key=('load-dirs', tuple((d, nme, fl) for d, nme, fl in steps)), nontrivial=len({d for d, _, _ in steps}) > 1)
+            if outs != [want, want]:
+                ctx.violation('macro-loaded-from-the-wrong-directory', 'caller.pt %r (every directory of %r holds layout.pt and widgets.pt)\n  '
+                              'renderings %r\n  expected   %r (twice)' % ('<x>' + body + '</x>', dirs, outs, want),
+                              {'kind': 'load-dirs', 'steps': [list(x) for x in steps]})
     finally:
         shutil.rmtree(tmp, ignore_errors=True)
 
@@ -605,6 +665,13 @@ def layer_switch_across_boundaries(ctx, n):
 
 
 def replay(data):
+    if data.get('kind') == 'load-dirs':
+        from vlib import shard, state
+        ctx = shard.Ctx(PROP, 'quick', 0, 0, 1)
+        state.CTX = ctx
+        monitors.install(ctx, tokalg=False)
+        layer_load_across_directories(ctx, 60)
+        return bool(ctx.violations), '\n'.join(v['cases'][0]['what'] for v in ctx.violations.values()) or 'every load: resolves next to its template'
     if data.get('kind') == 'redef':
         from vlib import shard, state
         ctx = shard.Ctx(PROP, 'quick', 0, 0, 1)
